@@ -13,6 +13,7 @@ import json
 import os
 import re
 import shutil
+import tokenize
 import tempfile
 
 from vf import core
@@ -79,6 +80,8 @@ class B(object):
         self.expected = None
         self.why = None
         self.skip = None
+        self.shares_read_dotted_package = False   # another import of a package read through a dotted import
+        self.strict = False               # position taken from the tokenizer and demanded exactly (multi-line import)
         self.cond = False                 # sits inside a compound statement of its scope
         self.nested_locals = False        # a scope nested in the owner reads `locals`
         self.rebound = None               # (kind of nested locals-reading scope that binds id again, conditionally?)
@@ -154,9 +157,13 @@ class Oracle(object):
                 self.read_ids.add(n.id)
         self.module = Sc('module', self.tree, None)
         self.scopes = [self.module]
+        self._stmt_tokens = {}
+        self.strict_positions = 0
         self._cond = 0                    # depth of compound statements inside the current scope
         self.stmts(self.tree.body, self.module, None, 0)
         self.locals_context()
+        # packages whose top-level name is read while bound by a dotted import (`import a.b` + a read of `a`)
+        self.read_dotted_tops = set(b.id for b in self.bindings if b.kind == 'import-dotted' and b.id in self.read_ids)
         for b in self.bindings:
             self.resolve(b)
 
@@ -373,7 +380,8 @@ class Oracle(object):
                     kind, id = 'import-dotted', a.name.split('.')[0]
                 else:
                     kind, id = 'import', a.name
-                self.add(id, kind, sc, self.alias_pos(a), node.lineno, hi, unv, comp, module=a.name)
+                b = self.add(id, kind, sc, self.alias_pos(a), node.lineno, hi, unv, comp, module=a.name)
+                self.multiline_alias(node, a, b)
         elif T is ast.ImportFrom:
             hi = getattr(node, 'end_lineno', node.lineno) or node.lineno
             mod = '.' * (node.level or 0) + (node.module or '')
@@ -382,8 +390,9 @@ class Oracle(object):
                     self.star_lines.append((node.lineno, hi))
                     self.add('*', 'star', sc, None, node.lineno, hi, unv, comp, module=mod)
                 else:
-                    self.add(a.asname or a.name, 'from-as' if a.asname else 'from', sc, self.alias_pos(a),
-                             node.lineno, hi, unv, comp, module=mod)
+                    b = self.add(a.asname or a.name, 'from-as' if a.asname else 'from', sc, self.alias_pos(a),
+                                 node.lineno, hi, unv, comp, module=mod)
+                    self.multiline_alias(node, a, b)
         elif T is getattr(ast, 'Match', None):
             self.visit(node.subject, sc, unv, comp)
             for c in node.cases:
@@ -406,6 +415,37 @@ class Oracle(object):
         else:
             for child in ast.iter_child_nodes(node):
                 self.visit(child, sc, unv, comp)
+
+    def multiline_alias(self, node, a, b):
+        """an import statement that spans several physical lines: take the position of the bound identifier
+        from the tokenizer (independent of the AST end offsets) and demand it exactly"""
+        hi = getattr(node, 'end_lineno', None)
+        if not hi or hi == node.lineno or getattr(a, 'end_lineno', None) is None:
+            return
+        frag = self.lines[node.lineno - 1:hi]
+        if not all(l.isascii() for l in frag) or any(ch in l for l in frag for ch in EXOTIC_LINEBREAKS):
+            return
+        toks = self._stmt_tokens.get(node.lineno)
+        if toks is None:
+            toks = []
+            try:
+                src = iter([l + '\n' for l in frag])
+                for t in tokenize.generate_tokens(lambda: next(src, '')):
+                    if t.type == tokenize.NAME:
+                        toks.append((t.start[0] + node.lineno - 1, t.start[1], t.string))
+            except (tokenize.TokenError, SyntaxError, IndentationError):
+                pass                      # what was tokenized before the error is still good
+            self._stmt_tokens[node.lineno] = toks
+        lo_, hi_ = (a.lineno, a.col_offset), (a.end_lineno, a.end_col_offset)
+        inside = [t for t in toks if lo_ <= (t[0], t[1]) < hi_]
+        if not inside:
+            return
+        t = inside[-1] if a.asname else inside[0]
+        if t[2] != b.id:
+            return
+        b.exact = (t[0], t[1])
+        b.strict = True
+        self.strict_positions += 1
 
     def alias_pos(self, a):
         if not hasattr(a, 'end_col_offset') or a.end_col_offset is None:
@@ -492,6 +532,8 @@ class Oracle(object):
             b.skip = 'declared-nonlocal-in-a-scope-that-reads-locals'
             return
         b.nested_locals = id(owner) in self.has_nested_locals
+        if b.kind in IMPORT_KINDS and b.module and not b.module.startswith('.'):
+            b.shares_read_dotted_package = b.module.split('.')[0] in self.read_dotted_tops
         b.rebound = self.rebound_in_locals_scope.get((id(owner), b.id))
         under = b.id.startswith('_')
         is_import = b.kind in IMPORT_KINDS
@@ -541,6 +583,8 @@ def missing_label(b):
     if b.rebound:
         return 'missing:outer-binding-rebound-in-nested-%s-that-reads-locals' % (
             'class-body' if b.rebound[0] == 'class' else b.rebound[0])
+    if b.shares_read_dotted_package:
+        return 'missing:import-of-package-read-through-dotted-import:' + b.kind
     if b.kind == 'param-posonly':
         return 'missing:posonly-param'
     if b.kind == 'except' and b.trystar:
@@ -581,6 +625,11 @@ def marginals(part, b, orc=None):
     part.hist('expected_by_kind', '%s->%s' % (binding_kind_for_hist(b), b.expected or 'silent'))
     if b.nested_locals:
         part.count('bindings_checked_although_a_nested_scope_reads_locals')
+    if b.shares_read_dotted_package:
+        part.hist('imports_of_a_package_read_through_a_dotted_import', '%s in %s (module %s) -> %s' % (
+            b.kind, b.site.kind, 'package' if '.' not in b.module else 'sub-package', b.expected or 'silent'))
+        if b.expected == 'W02':
+            part.count('unread_W02_imports_of_a_package_read_through_a_dotted_import')
     if b.rebound:
         k, cond = b.rebound
         part.count('outer_bindings_checked_although_rebound_in_nested_%s_reading_locals' % k)
@@ -721,6 +770,12 @@ def compare(part, text, filename, projdir, origin, case_extra=None, histname='ma
             cell = '%s|%s|%s' % (binding_kind_for_hist(b), b.scope_label(), b.shape())
             part.hist(histname, cell)
             marginals(part, b, orc)
+            if b.strict and how == 'exact':
+                part.count('multiline_import_positions_confirmed_against_tokenizer')
+            if b.strict and how != 'exact' and how != 'position-mismatch':
+                viol('position-multiline-import:%s:%s' % ('wrong-line' if r[2] != b.exact[0] else 'wrong-column', b.kind),
+                     '%s %r reported at %s, the identifier token is at %s (import statement lines %d-%d)' % (
+                         r[0], id, (r[2], r[3]), b.exact, b.lo, b.hi), binding=b.describe(), report=list(r))
             if how == 'position-mismatch':
                 viol('position-not-at-binding:' + b.kind,
                      '%s %r reported at %s, binding %s is at %s (lines %d-%d)' % (
@@ -916,7 +971,9 @@ def main(run):
                  'expected_W02', 'generated_modules', 'real_files', 'matrix_cells_covered', 'star_names_resolved_by_supp',
                  'reportable_outer_bindings_conditionally_rebound_in_class_body_reading_locals',
                  'bindings_skipped:scope-reads-locals', 'bindings_checked_although_a_nested_scope_reads_locals',
-                 'reportable_bindings_inside_augmented_assignments', 'host_positions_covered'),
+                 'reportable_bindings_inside_augmented_assignments', 'host_positions_covered',
+                 'unread_W02_imports_of_a_package_read_through_a_dotted_import',
+                 'multiline_import_positions_confirmed_against_tokenizer'),
         assumptions=[
             'never read = no ast.Name(id, Load) anywhere in the file (strings, __all__, attribute names do not count)',
             'a comprehension variable is owned by the function/lambda/class/module that contains the comprehension '
